@@ -3,10 +3,12 @@ Expressions and statements at token level (src/syntax/src/{expressions,structure
 the formula grammar of Model/Formula.lean with structured operands —
 
   expression := formula | formula ".." formula [".." formula]          (range operators `..` and `..=`)
-  factor     := literal | name | name "(" [expression {"," expression}] ")"
+  factor     := literal | name | name "(" [argument {"," argument}] ")"     argument := [name ":"] expression
               | "[" [row {";" row}] "]"         row := expression {" " expression}
               | "(" ")" | "(" expression "," … ")"   (a tuple; one formula in parentheses is a parenthetical term)
-              | "{" [expression {"," expression}] "}"
+              | "{" [expression {"," expression}] "}"                     (a set; `{}` is the empty set)
+              | "{" binding {"," binding} "}"       binding := name [kind] ":" expression     (a record)
+              | "{" ":" "}" | "{" mapping {"," mapping} "}"   mapping := expression ":" expression  (a map)
               | name "[" subscript {"," subscript} "]"      subscript := ":" | expression
               | "(" formula ")" | "-" factor | "!" factor,   each optionally followed by "'"
   statement  := ["~"] name [kind] ":=" expression
@@ -41,13 +43,34 @@ inductive Sub (α : Type) where
   | all
   | ex (e : Ex α)
 
+/-- an argument of a call: positional or named -/
+inductive Arg (α : Type) where
+  | pos (e : Ex α)
+  | named (x : Nat) (e : Ex α)
+
+/-- a binding of a record: name, optional kind annotation, value -/
+inductive Bind (α : Type) where
+  | mk (x : Nat) (k : Option Nat) (e : Ex α)
+
+/-- an element of a map -/
+inductive Mapping (α : Type) where
+  | mk (k v : Ex α)
+
+/-- an element between braces before the literal is classified -/
+inductive Ent (α : Type) where
+  | plain (e : Ex α)
+  | keyed (k v : Ex α)
+  | bind (x : Nat) (k : Option Nat) (e : Ex α)
+
 inductive Fac where
   | lit (n : Nat)
   | var (n : Nat)
-  | call (f : Nat) (args : List (Ex Fac))
+  | call (f : Nat) (args : List (Arg Fac))
   | mat (rows : List (List (Ex Fac)))
   | tup (es : List (Ex Fac))
   | set (es : List (Ex Fac))
+  | recd (bs : List (Bind Fac))
+  | map (ms : List (Mapping Fac))
   | slice (x : Nat) (subs : List (Sub Fac))
   | paren (t : Tree Fac)
   | neg (f : Fac)
@@ -102,6 +125,40 @@ def listTill {α : Type} (p : List Tok → Option (α × List Tok)) (sep close :
      | _ => none)
   | [] => none
 
+/-! the literal between braces: `structure` tries record, then map, then set; a record is a list of bindings
+    (`name [kind] : e`), a map a list of `e : e`, a set a list of `e`.  The entries are read once and classified. -/
+
+def allBind : List (Ent Fac) → Option (List (Bind Fac))
+  | [] => some []
+  | .bind x k e :: es => (match allBind es with | some bs => some (.mk x k e :: bs) | none => none)
+  | _ :: _ => none
+
+def allKeyed : List (Ent Fac) → Option (List (Mapping Fac))
+  | [] => some []
+  | .keyed k v :: es => (match allKeyed es with | some ms => some (.mk k v :: ms) | none => none)
+  | .bind x none e :: es => (match allKeyed es with | some ms => some (.mk (.form (.leaf (.var x))) e :: ms) | none => none)
+  | _ :: _ => none
+
+def allPlain : List (Ent Fac) → Option (List (Ex Fac))
+  | [] => some []
+  | .plain e :: es => (match allPlain es with | some xs => some (e :: xs) | none => none)
+  | _ :: _ => none
+
+/-- record if every entry is a binding, else map if every entry has a key, else set if none has -/
+def classify (ents : List (Ent Fac)) : Option Fac :=
+  match ents with
+  | [] => some (.set [])
+  | _ =>
+    match allBind ents with
+    | some bs => some (.recd bs)
+    | none =>
+      match allKeyed ents with
+      | some ms => some (.map ms)
+      | none =>
+        match allPlain ents with
+        | some es => some (.set es)
+        | none => none
+
 mutual
 /-- `factor` -/
 def pFac (g : Gram) : Nat → List Tok → Option (Fac × List Tok)
@@ -110,7 +167,7 @@ def pFac (g : Gram) : Nat → List Tok → Option (Fac × List Tok)
     match ts with
     | .lit a :: r => some (post (.lit a) r)
     | .id x :: .lp :: r =>
-      (match listTill (pEx g n) .comma .rp r with
+      (match listTill (pArg g n) .comma .rp r with
        | some (args, r') => some (post (.call x args) r')
        | none => none)
     | .id x :: .lb :: r =>
@@ -122,9 +179,10 @@ def pFac (g : Gram) : Nat → List Tok → Option (Fac × List Tok)
       (match listTill (fun ts => sepBy (pEx g n) .sp ts.length ts) .semi .rb r with
        | some (rows, r') => some (post (.mat rows) r')
        | none => none)
+    | .lc :: .colon :: .rc :: r => some (post (.map []) r)
     | .lc :: r =>
-      (match listTill (pEx g n) .comma .rc r with
-       | some (es, r') => some (post (.set es) r')
+      (match listTill (pEnt g n) .comma .rc r with
+       | some (ents, r') => (match classify ents with | some f => some (post f r') | none => none)
        | none => none)
     | .lp :: r =>
       (match listTill (pEx g n) .comma .rp r with
@@ -184,6 +242,25 @@ def pSub (g : Gram) : Nat → List Tok → Option (Sub Fac × List Tok)
     match ts with
     | .colon :: r => some (.all, r)
     | _ => (match pEx g n ts with | some (e, r) => some (.ex e, r) | none => none)
+/-- an argument of a call: `call-arg-with-binding | call-arg` -/
+def pArg (g : Gram) : Nat → List Tok → Option (Arg Fac × List Tok)
+  | 0, _ => none
+  | n + 1, ts =>
+    match ts with
+    | .id x :: .colon :: r => (match pEx g n r with | some (e, r') => some (.named x e, r') | none => none)
+    | _ => (match pEx g n ts with | some (e, r) => some (.pos e, r) | none => none)
+/-- an entry between braces: a binding, or an expression optionally followed by `:` and a value -/
+def pEnt (g : Gram) : Nat → List Tok → Option (Ent Fac × List Tok)
+  | 0, _ => none
+  | n + 1, ts =>
+    match ts with
+    | .id x :: .kind k :: .colon :: r => (match pEx g n r with | some (e, r') => some (.bind x (some k) e, r') | none => none)
+    | .id x :: .colon :: r => (match pEx g n r with | some (e, r') => some (.bind x none e, r') | none => none)
+    | _ =>
+      (match pEx g n ts with
+       | some (a, .colon :: r) => (match pEx g n r with | some (b, r') => some (.keyed a b, r') | none => none)
+       | some (a, r) => some (.plain a, r)
+       | none => none)
 end
 
 /-! ### statements and programs -/
@@ -240,10 +317,12 @@ mutual
 def rFac (g : Gram) : Fac → List Tok
   | .lit n => [.lit n]
   | .var n => [.id n]
-  | .call f args => .id f :: .lp :: rExs g args ++ [.rp]
+  | .call f args => .id f :: .lp :: rArgs g args ++ [.rp]
   | .mat rows => .lb :: rRows g rows ++ [.rb]
   | .tup es => .lp :: rExs g es ++ [.rp]
   | .set es => .lc :: rExs g es ++ [.rc]
+  | .recd bs => .lc :: rBinds g bs ++ [.rc]
+  | .map ms => .lc :: (if ms.isEmpty then [.colon] else rMaps g ms) ++ [.rc]
   | .slice x subs => .id x :: .lb :: rSubs g subs ++ [.rb]
   | .paren t => .lp :: rTrm g t ++ [.rp]
   | .neg f => .dash :: rFac g f
@@ -275,7 +354,31 @@ def rSubs (g : Gram) : List (Sub Fac) → List Tok
   | [] => []
   | [s] => rSub g s
   | s :: s' :: ss => rSub g s ++ .comma :: rSubs g (s' :: ss)
+def rArg (g : Gram) : Arg Fac → List Tok
+  | .pos e => rEx g e
+  | .named x e => .id x :: .colon :: rEx g e
+def rArgs (g : Gram) : List (Arg Fac) → List Tok
+  | [] => []
+  | [a] => rArg g a
+  | a :: a' :: as => rArg g a ++ .comma :: rArgs g (a' :: as)
+def rBind (g : Gram) : Bind Fac → List Tok
+  | .mk x k e => .id x :: ((match k with | some k => [.kind k] | none => []) ++ .colon :: rEx g e)
+def rBinds (g : Gram) : List (Bind Fac) → List Tok
+  | [] => []
+  | [b] => rBind g b
+  | b :: b' :: bs => rBind g b ++ .comma :: rBinds g (b' :: bs)
+def rMapping (g : Gram) : Mapping Fac → List Tok
+  | .mk k v => rEx g k ++ .colon :: rEx g v
+def rMaps (g : Gram) : List (Mapping Fac) → List Tok
+  | [] => []
+  | [m] => rMapping g m
+  | m :: m' :: ms => rMapping g m ++ .comma :: rMaps g (m' :: ms)
 end
+
+def rEnt (g : Gram) : Ent Fac → List Tok
+  | .plain e => rEx g e
+  | .keyed k v => rEx g k ++ .colon :: rEx g v
+  | .bind x k e => .id x :: ((match k with | some k => [.kind k] | none => []) ++ .colon :: rEx g e)
 
 def rTarget (g : Gram) (x : Nat) (subs : List (Sub Fac)) : List Tok :=
   if subs.isEmpty then [.id x] else .id x :: .lb :: rSubs g subs ++ [.rb]
